@@ -461,7 +461,7 @@ class Sim:
         if ck == "scalar":
             return Const(decode_scalar(c["bits"], c["size"], ty), ty)
         if ck == "fn":
-            return FnV(c["fn"], c.get("resolved"))
+            return FnV(c["fn"], c.get("resolved"), fr.gargs)
         if ck == "zst":
             if ty.get("k") == "adt":
                 a = self.prog.adt(ty["did"])
@@ -859,24 +859,30 @@ class Sim:
         if func["k"] != "const" or func.get("ck") != "fn":
             fv = self.resolve(st, self.eval_operand(st, fr, func))
             if isinstance(fv, FnV):
-                fnj, res = fv.fn, fv.resolved
+                fnj, res, cg = fv.fn, fv.resolved, fv.gargs
             else:
                 raise Unsupported("indirect call through %r" % (fv,))
         else:
-            fnj, res = func["fn"], func.get("resolved")
+            fnj, res, cg = func["fn"], func.get("resolved"), fr.gargs
         args = [self.eval_operand(st, fr, a) for a in term["args"]]
         dest = self.eval_place(st, fr, term["dest"])
         ret_ty = self.place_ty(fr, term["dest"])
+        self.invoke(st, fnj, res, cg, args, dest, ret_ty, term["t"], term["span"])
+
+    def invoke(self, st, fnj, res, caller_gargs, args, dest, ret_ty, ret_bb, span):
+        """Dispatch a call: inline a local body, apply a model, or treat as an oracle. ret_bb == -1: synchronous call
+        (the caller's position is not touched)."""
+        fr = st.frames[-1] if st.frames else None
         target = res["fn"] if res else fnj
-        gargs = self.callee_gargs(fr, target)
+        gargs = [subst(a, caller_gargs) for a in target["args"]]
         # python-side trait resolution for calls left generic by rustc but concrete after substitution
         if not res and fnj.get("trait"):
             r2 = self.resolve_trait_call(fnj, gargs)
             if r2 is not None:
                 target, gargs = r2
                 res = {"fn": target, "kind": "item"}
-        call = {"fn": target, "orig": fnj, "args": args, "gargs": gargs, "ret_ty": ret_ty, "span": term["span"],
-                "arg_ops": term["args"], "frame": fr, "resolved": res is not None, "dest": dest, "ret_bb": term["t"]}
+        call = {"fn": target, "orig": fnj, "args": args, "gargs": gargs, "ret_ty": ret_ty, "span": span,
+                "frame": fr, "resolved": res is not None, "dest": dest, "ret_bb": ret_bb}
         # 1. local function with MIR
         if target.get("local") and res is not None:
             f = self.prog.fns.get(target["did"])
@@ -885,22 +891,22 @@ class Sim:
                 call2 = dict(call)
                 call2["orig"] = {"trait": "opaque::" + ((f.get("impl_self") or {}).get("name") or "fn"), "name": f["name"]}
                 r = self.oracle_call(st, call2)
-                self.finish_call(st, fr, dest, r, term["t"])
+                self.finish_call(st, fr, dest, r, ret_bb)
                 return
             if f is not None and "body" in f:
                 m = self.models.find_local_model(self, target, f)
                 if m is None:
                     self.stats["calls_inlined"] += 1
-                    self.push_frame(st, f, f["body"], gargs, args, dest, term["t"])
+                    self.push_frame(st, f, f["body"], gargs, args, dest, ret_bb)
                     return
                 r = m(self, st, call)
-                self.finish_call(st, fr, dest, r, term["t"])
+                self.finish_call(st, fr, dest, r, ret_bb)
                 return
         # 1b. operator trait call left generic by rustc whose Self is a primitive after substitution
         if res is None and fnj.get("trait") and gargs and gargs[0].get("k") == "prim":
             r = self.builtin_op(st, fnj, gargs, args, ret_ty)
             if r is not NotImplemented:
-                self.finish_call(st, fr, dest, r, term["t"])
+                self.finish_call(st, fr, dest, r, ret_bb)
                 return
         # 2. model
         m = self.models.find_model(self, target, fnj, res is not None)
@@ -909,14 +915,45 @@ class Sim:
             r = m(self, st, call)
             if r is NotImplemented:
                 return  # model pushed a frame itself
-            self.finish_call(st, fr, dest, r, term["t"])
+            self.finish_call(st, fr, dest, r, ret_bb)
             return
         # 3. oracle: unresolved trait method on an opaque receiver
         if res is None and fnj.get("trait"):
             r = self.oracle_call(st, call)
-            self.finish_call(st, fr, dest, r, term["t"])
+            self.finish_call(st, fr, dest, r, ret_bb)
             return
         raise Unsupported("no model for call to %s" % target["pretty"])
+
+    def call_sync(self, st, callable_, args, ret_ty=None, span=None):
+        """Synchronously call a closure / fn item value and return its result (forks and panics propagate)."""
+        callable_ = self.resolve(st, callable_)
+        if isinstance(callable_, Ref):
+            callable_ = self.read(st, callable_.ptr)
+        depth = len(st.frames)
+        tmp = st.new_obj("tmp")
+        if isinstance(callable_, Opaque) and callable_.kind == "Closure":
+            fn = self.prog.fns.get(callable_.data[0])
+            if fn is None or "body" not in fn:
+                raise Unsupported("closure body missing")
+            body = fn["body"]
+            gargs = list(callable_.data[2].g) if len(callable_.data) > 2 else []
+            n = len(fn["generics"])
+            gargs = gargs + [{"k": "param", "name": fn["generics"][i]["name"], "idx": i} for i in range(len(gargs), n)]
+            sty = body["locals"][1]["ty"]
+            if sty.get("k") == "ref":
+                oid = st.new_obj("closure", callable_)
+                a0 = Ref(Ptr(oid), sty.get("mut", False))
+            else:
+                a0 = callable_
+            self.push_frame(st, fn, body, gargs, [a0] + list(args), Ptr(tmp), -1)
+        elif isinstance(callable_, FnV):
+            self.invoke(st, callable_.fn, callable_.resolved, callable_.gargs, list(args), Ptr(tmp), ret_ty, -1, span)
+        else:
+            raise Unsupported("call of %r" % (callable_,))
+        while len(st.frames) > depth:
+            self.step_inplace(st)
+        v = st.mem.pop(tmp)
+        return UNIT if v is UNINIT else v
 
     BUILTIN_BIN = {"add": "Add", "sub": "Sub", "mul": "Mul", "div": "Div"}
     BUILTIN_ASSIGN = {"add_assign": "Add", "sub_assign": "Sub", "mul_assign": "Mul", "div_assign": "Div"}
@@ -988,6 +1025,8 @@ class Sim:
         if r is None:
             r = UNIT
         self.write(st, dest, r)
+        if ret_bb == -1:
+            return
         if ret_bb is None:
             raise Unsupported("call without return target returned")
         fr.bb, fr.si = ret_bb, 0
@@ -1116,7 +1155,7 @@ class Sim:
                     ret = self.models.POST[fr2.tag[1]](self, st, ret, fr2.tag[2])
                 if fr2.dest is not None:
                     self.write(st, fr2.dest, ret)
-                if st.frames and fr2.ret_bb is not None:
+                if st.frames and fr2.ret_bb is not None and fr2.ret_bb != -1:
                     caller = st.frames[-1]
                     caller.bb, caller.si = fr2.ret_bb, 0
                 elif not st.frames:
